@@ -335,7 +335,7 @@ func genC20Corrupt(r *Rng) *Plan {
 	}
 	if r.Chance(1, 4) {
 		deg := map[string]string{"empty.yaml": "", "sep.yaml": "---\n", "nulldoc.yml": "null\n", "tab.json": "\t", "twodocs.yaml": "version: 1\nsubject: CN=a\n---\nversion: 1\nsubject: CN=b\n",
-			"sameprof.yaml": "version: 1\nname: root\n", "bom.yaml": "\xef\xbb\xbfversion: 1\nsubject: CN=bom\n", "anchor.yaml": "a: &a [*a]\n", "deep.json": strings.Repeat("[", 2000) + strings.Repeat("]", 2000)}
+			"sameprof.yaml": "version: 1\nname: root\n", "\u023a\u023a\u023a\u023a\u023a\u023a.yaml": "version: 1\nsubject: CN=grows when lower-cased\n", "\u023e\u023e\u023e\u023e\u023e.YML": "x", "bom.yaml": "\xef\xbb\xbfversion: 1\nsubject: CN=bom\n", "anchor.yaml": "a: &a [*a]\n", "deep.json": strings.Repeat("[", 2000) + strings.Repeat("]", 2000)}
 		var dn []string
 		for k := range deg {
 			dn = append(dn, k)
